@@ -336,6 +336,8 @@ func head2(e []sstEntry, n int) []sstEntry {
 	return e
 }
 
+var c11Shard, c11NShards = 0, 1
+
 // damage: every byte (or stride positions for large files) x value classes
 func c11Damage(name string, ents []sstEntry, dir string, res *fw.Result, unit string, env *fw.Env) {
 	path := filepath.Join(dir, name+".sst")
@@ -354,7 +356,11 @@ func c11Damage(name string, ents []sstEntry, dir string, res *fw.Result, unit st
 		for i := 0; i < 256 && i < len(orig); i++ {
 			positions = append(positions, i)
 		}
-		for i := 256; i < len(orig)-6*1024; i += 251 {
+		stride := 251
+		if env.Thorough {
+			stride = 1
+		}
+		for i := 256; i < len(orig)-6*1024; i += stride {
 			positions = append(positions, i)
 		}
 		for i := max0(len(orig) - 6*1024); i < len(orig); i++ {
@@ -363,7 +369,10 @@ func c11Damage(name string, ents []sstEntry, dir string, res *fw.Result, unit st
 	}
 	classes := []func(b byte) byte{func(b byte) byte { return b ^ 0x01 }, func(b byte) byte { return b ^ 0x80 }, func(b byte) byte { return 0xFF }}
 	dpath := filepath.Join(dir, name+".dmg.sst")
-	for _, pos := range positions {
+	for pi, pos := range positions {
+		if pi%c11NShards != c11Shard {
+			continue
+		}
 		if env.Expired() {
 			res.Exhaustive = false
 			res.Caps = append(res.Caps, fmt.Sprintf("%s: damage enumeration stopped at position %d of %d", name, pos, len(orig)))
@@ -470,6 +479,11 @@ func c11Unit(unit string, env *fw.Env) *fw.Result {
 		}
 	case "damage":
 		name := parts[1]
+		c11Shard, c11NShards = 0, 1
+		if i := strings.Index(name, "/"); i > 0 {
+			fmt.Sscanf(name[i+1:], "%d/%d", &c11Shard, &c11NShards)
+			name = name[:i]
+		}
 		c11Damage(name, shapes[name], dir, res, unit, env)
 		res.Sample(map[string]any{"damage_shape": name, "evaluations": res.Evaluations})
 	}
@@ -490,7 +504,7 @@ func init() {
 		ID:    "C11",
 		Level: "exploration",
 		Rule: "entry sets: n in {1,2,15,16,17,18,31,32,33,40} x {plain, alternating / restart-edge tombstones, empty values}, all tombstone masks for n<=4 (6 thorough), prefix/binary keys, long shared prefixes, 2/3(/5)-block tables; for each: forward iteration (from SeekToFirst, and by Next alone on a fresh iterator), Seek to every key / successor / predecessor / both ends followed by iteration to the end, SeekToLast, Get of every key and every non-key target. " +
-			"Damage: every byte (files <= 8 KiB; head, 251-stride and last 6 KiB for larger) x {^0x01, ^0x80, 0xFF}: open+iterate+get must fail or yield only written entries. Non-trivial = tables with >1 entry / damaged opens that were evaluated to the end",
+			"Damage: every byte (files <= 8 KiB; head, 251-stride (every byte in the thorough tier) and last 6 KiB for larger) x {^0x01, ^0x80, 0xFF}: open+iterate+get must fail or yield only written entries. Non-trivial = tables with >1 entry / damaged opens that were evaluated to the end",
 		Assumptions: []string{"key/value sizes up to 20 KiB values and 302-byte keys; single-byte damage only"},
 		Units: func(tier string) []string {
 			var us []string
@@ -504,6 +518,12 @@ func init() {
 				dm = append(dm, "blocks3")
 			}
 			for _, d := range dm {
+				if tier == "thorough" && (d == "blocks3" || d == "blocks2") {
+					for k := 0; k < 8; k++ {
+						us = append(us, fmt.Sprintf("damage/%s/%d/8", d, k))
+					}
+					continue
+				}
 				us = append(us, "damage/"+d)
 			}
 			return us
